@@ -6,7 +6,7 @@ import json, glob, os, re, sys
 DEST='/verif/seeded'
 notes=json.load(open('/verif/tools/seed_notes2.json'))
 notes.update(json.load(open('/verif/tools/seed_notes3.json')))
-for _n in ('4','5','6','7'):
+for _n in ('4','5','6','7','8'):
     if os.path.exists('/verif/tools/seed_notes%s.json'%_n): notes.update(json.load(open('/verif/tools/seed_notes%s.json'%_n)))
 ONLY=sys.argv[1] if len(sys.argv)>1 else ''
 final={}
@@ -19,6 +19,7 @@ rows=[]
 R4LAST=json.load(open('/verif/tools/round4_last_index.json'))
 R5LAST=json.load(open('/verif/tools/round5_last_index.json')) if os.path.exists('/verif/tools/round5_last_index.json') else {}
 R6LAST=json.load(open('/verif/tools/round6_last_index.json')) if os.path.exists('/verif/tools/round6_last_index.json') else {}
+R7LAST=json.load(open('/verif/tools/round7_last_index.json')) if os.path.exists('/verif/tools/round7_last_index.json') else {}
 def round_of(key):
     k=int(key.split('-')[1])
     if k<=3: return 1
@@ -26,7 +27,8 @@ def round_of(key):
     if k<=9: return 3
     if k<=R4LAST.get(key[:3],99): return 4
     if k<=R5LAST.get(key[:3],999): return 5
-    return 6 if k<=R6LAST.get(key[:3],9999) else 7
+    if k<=R6LAST.get(key[:3],9999): return 6
+    return 7 if k<=R7LAST.get(key[:3],99999) else 8
 for d in sorted([d for d in glob.glob(DEST+'/C*-*') if os.path.isdir(d) and os.path.exists(d+'/meta.json') and int(d.split('-')[-1])>=4], key=lambda x:(x.split('/')[-1][:3], int(x.split('-')[-1]))):
     key=os.path.basename(d)
     m=json.load(open(d+'/meta.json'))
